@@ -14,6 +14,19 @@ pub fn parse_pipeline(def: &ast::PipelineDefinition, context: &mut Context) -> T
         graphics_pipeline_state: None,
     };
 
+    // Pipeline names must be unique as pipelines are selected by name
+    if context
+        .module
+        .pipelines
+        .iter()
+        .any(|p| p.name.node == def.name.node)
+    {
+        return Err(TyperError::PipelineNameDuplicate(
+            def.name.node.clone(),
+            def.name.location,
+        ));
+    }
+
     // Check for duplicate properties
     for i in 1..def.properties.len() {
         let new_property = &def.properties[i];
